@@ -228,18 +228,24 @@ fn iter_map<KT: DbMapKeyType + for<'a> From<&'a [u8]>>(t: &Tables, m: &mut abyss
     }
 }
 
-fn stats_map<KT: DbMapKeyType + std::fmt::Display>(m: &abyssiniandb::filedb::FileDbMap<KT>, with_filling: bool) -> std::io::Result<Value> {
-    let kf = m.count_of_free_key_piece()?;
-    let vf = m.count_of_free_value_piece()?;
+fn stats_map<KT: DbMapKeyType + std::fmt::Display>(m: &abyssiniandb::filedb::FileDbMap<KT>, with_filling: bool, only: Option<&str>) -> std::io::Result<Value> {
+    // `only`: a single statistics call (one walk over one file) instead of all of them
+    let want = |w: &str| only.map(|o| o == w).unwrap_or(true);
     let mut o = Map::new();
-    o.insert("kfree".into(), Value::Array(kf.iter().map(|(s, c)| json!([s, c])).collect()));
-    o.insert("vfree".into(), Value::Array(vf.iter().map(|(s, c)| json!([s, c])).collect()));
-    o.insert("ksize".into(), parse_pairs(&format!("{}", m.key_piece_size_stats()?)));
-    o.insert("vsize".into(), parse_pairs(&format!("{}", m.value_piece_size_stats()?)));
-    o.insert("klen".into(), parse_pairs(&format!("{}", m.key_length_stats()?)));
-    o.insert("vlen".into(), parse_pairs(&format!("{}", m.value_length_stats()?)));
-    o.insert("kcount".into(), parse_pairs(&format!("{}", m.keys_count_stats()?)));
-    if with_filling {
+    if want("kfree") {
+        let kf = m.count_of_free_key_piece()?;
+        o.insert("kfree".into(), Value::Array(kf.iter().map(|(s, c)| json!([s, c])).collect()));
+    }
+    if want("vfree") {
+        let vf = m.count_of_free_value_piece()?;
+        o.insert("vfree".into(), Value::Array(vf.iter().map(|(s, c)| json!([s, c])).collect()));
+    }
+    if want("ksize") { o.insert("ksize".into(), parse_pairs(&format!("{}", m.key_piece_size_stats()?))); }
+    if want("vsize") { o.insert("vsize".into(), parse_pairs(&format!("{}", m.value_piece_size_stats()?))); }
+    if want("klen") { o.insert("klen".into(), parse_pairs(&format!("{}", m.key_length_stats()?))); }
+    if want("vlen") { o.insert("vlen".into(), parse_pairs(&format!("{}", m.value_length_stats()?))); }
+    if want("kcount") { o.insert("kcount".into(), parse_pairs(&format!("{}", m.keys_count_stats()?))); }
+    if (with_filling && only.is_none()) || only == Some("filling") {
         let f = m.htx_filling_rate_per_mill()?;
         o.insert("filling".into(), json!([f.0, f.1]));
     }
@@ -543,7 +549,9 @@ impl Ctx {
                 let h = op["h"].as_i64().ok_or("h")?;
                 let filling = op.get("filling").and_then(|f| f.as_bool()).unwrap_or(true);
                 let e = self.maps.get(&h).ok_or("no such handle")?;
-                let r = with_map!(&e.h, m => stats_map(m, filling));
+                let only = op.get("only").and_then(|o| o.as_str()).map(|x| x.to_string());
+                if let Some(o) = &only { ev.insert("only".into(), json!(o)); }
+                let r = with_map!(&e.h, m => stats_map(m, filling, only.as_deref()));
                 self.set_res(ev, r, |v| v);
             }
             "bulk_get" | "bulk_del" | "bulk_put" | "bulk_put_string" | "put_from_iter" | "bulk_get_string" | "bulk_del_string" => {
